@@ -26,7 +26,7 @@ TRICLINIC = [
 ]
 FAR = (11, -13, 17)
 NPTS = 5
-KINDS_QUICK = (('1', 'pt'), ('1', '3'), ('3', '3'))
+KINDS_QUICK = (('1', 'pt'), ('3', '3'))
 KINDS_ALL = (('1', 'pt'), ('3', 'pt'), ('1', '1'), ('1', '3'), ('3', '3'))
 D1 = np.array([0.11, 0.02, -0.03])
 D2 = np.array([-0.05, 0.07, 0.01])
@@ -125,7 +125,7 @@ class C19(Check):
                  'on the real Residue.distance_to (real AtomGro records), minimum-image reference by plain loops')
     level_text = ('20 (quick) / 68 (thorough) boxes (orthorhombic edges from {0.5, 1, 2.5, 20} nm, 4 triclinic), '
                   '10 / 20 point pairs (4 / 5 points) inside the box and far outside, all 343 lattice shifts in [-3,3]^3 on either '
-                  'argument, 3 / 5 argument-kind combinations, both call forms, both directions, are executed on '
+                  'argument, 2 / 5 argument-kind combinations, both call forms, both directions, are executed on '
                   'the real code; a coverage statement over that finite space, not a proof for all reals')
     level_note = ('trusted: numpy arithmetic, the plain-loop minimum-image reference (orthorhombic only; the set of '
                   'periodic images is invariant under lattice shifts, so the reference of a shifted pair is the '
